@@ -107,7 +107,10 @@ pub(crate) const fn http3_data_frame_overhead(payload_size: usize) -> usize {
 
 pub(crate) fn get_fixed_size_ip(bytes: &mut Bytes) -> IpAddr {
     let ip = bytes.split_to(IPV6_WIRE_LENGTH);
-    if ip[..IPV4_PADDING_WIRE_LENGTH].iter().all(|x| *x == 0) {
+    // zero-padded addresses are IPv4, except for the IPv6 loopback `::1`
+    if ip[..IPV4_PADDING_WIRE_LENGTH].iter().all(|x| *x == 0)
+        && ip[..] != Ipv6Addr::LOCALHOST.octets()
+    {
         let address: [u8; IPV4_WIRE_LENGTH] = ip[IPV4_PADDING_WIRE_LENGTH..].try_into().unwrap();
         IpAddr::from(address)
     } else {
